@@ -1124,6 +1124,13 @@ package tree
 //@     invariant [only_entries_whose_count_is_in_the_window] forall k int :: {bitsets[k]} 0 <= k && k < len(bitsets) ==> bitsets[k] != nil && bitsets[k].val != nil && inwindow(bitsets[k].val.Count, minCount, maxCount)
 //@     invariant [every_entry_in_the_window_is_selected] forall j int :: {keyvalues[j]} 0 <= j && j <= rangeindex && inwindow(eiinfo(keyvalues[j]).Count, minCount, maxCount) ==> (exists k int :: {bitsets[k]} 0 <= k && k < len(bitsets) && bitsets[k].val == eiinfo(keyvalues[j]))
 
+// NewEdgeIndex: a fresh index over a fresh, empty hash table
+//@ func tree.NewEdgeIndex
+//@   allocates EdgeIndex, hashmap.HashMap, []hashmap.Bucket
+//@   assigns nothing
+//@   ensures [fresh_empty_index] result != nil && fresh(result) && result.hash != nil && fresh(result.hash) && result.hash.total == 0
+//@   ensures [well_formed_when_it_has_a_slot] size >= 1 ==> HMok(result.hash) && HMplaced(result.hash)
+
 // AddEdgeCount (properties C04, C09): a split looked up and not found is inserted with count 1 and the branch's
 // length; a split found gets its count incremented by one and the branch's length added; nothing else is written
 //@ func (*tree.EdgeIndex).AddEdgeCount
@@ -1135,6 +1142,8 @@ package tree
 //@   call (*hashmap.HashMap).PutValue [a_split_seen_for_the_first_time_starts_at_count_one_with_the_branch_length] !ok && a0 == em.hash && iref(a1) == e && itag(a2) == typetag("*EdgeIndexInfo") && cast(iref(a2), "*EdgeIndexInfo").Count == 1 && cast(iref(a2), "*EdgeIndexInfo").Len == e.length
 //@   return [a_split_already_seen_gets_one_more_occurrence_and_the_branch_length_added] e.bitset != nil && ok ==> cast(iref(v), "*EdgeIndexInfo").Count == old(cast(iref(v), "*EdgeIndexInfo").Count) + 1 && cast(iref(v), "*EdgeIndexInfo").Len == old(cast(iref(v), "*EdgeIndexInfo").Len) + e.length && em.hash.total == old(em.hash.total)
 //@   ensures [no_bitset_is_an_error] old(e.bitset) == nil ==> result != nil
+//@   ensures [index_stays_well_formed] HMok(em.hash) && HMplaced(em.hash) && em.hash == old(em.hash)
+//@   ensures [every_value_is_still_a_count_record] forall kv *hashmap.KeyValue :: {kv.Value} allocated(kv) ==> itag(kv.Value) == typetag("*EdgeIndexInfo") && iref(kv.Value) != 0
 
 //@ func tree.StarTreeFromTree
 //@   flag treeop
